@@ -491,7 +491,7 @@ CORPUS = [
     'MV|n1 n2 n3 u1 c t',
     'MO|n1 s w2 x2 S t',                            # a clean stop window
 ]
-# D22: destructors that allocate, nested collection inside the sweep (oracle only)
+# D22: destructors that allocate, nested collection inside the sweep
 CORPUS += ['MO|a1+2000+2001 a3+2002+2003:1 t', 'MVR|a1+2000 a2+2001+2002 t', 'MOR|w1 a2+2000+2001+2002 a3+2003:2 t',
            'MO|a1+101+102:1 a2+103+104:1 a3+105+106:1,2 a4+107+108:1,2,3 a5+109+110:1,2,3,4 a6+111+112:1,2,3,4,5 c6 d6 c t']
 F2_WITNESS = 'MO|s n1 d1 S t'
@@ -514,7 +514,8 @@ def run(ctx):
         'release counts per object), registered set with root flags, nitems, mitems and the running flag compared after every operation',
         'registry order abstract in the model (C17 covers the slot array); the order observed before each sweep is an input of the model, '
         'and the theorems quantify over every order and every set of marks',
-        'finalisers that allocate (nested collections) are outside the model and outside the generated histories']
+        'destructors that allocate are in the model (ESpawn/alloc_child); with really freed memory such cases are judged by the '
+        'oracle only (a stale address may be reused within one sweep); objects allocated by destructors during teardown: open finding F8']
     # findings of this property as recorded in the fragment (known_findings.json is assembled from it)
     mine = json.load(open(FINDINGS)) if os.path.exists(FINDINGS) else []
     ctx.findings = [f for f in ctx.findings if f.get('property') != 'C06'] + mine
@@ -594,7 +595,7 @@ def run(ctx):
     cases += small
     # a thin stream inside the F2 signature: other violations there would be masked, so keep it small
     cases += [gen_case(ctx.rng, 20, natural=False, f2=True) for _ in range(20 if quick else 500)]
-    # destructors that allocate (oracle only: not modelled)
+    # destructors that allocate (modelled; correspondence except with really freed memory)
     cases += [gen_case(ctx.rng, 40, alloc=True) for _ in range(800 if quick else 10000)]
     hist = {}
     for c in cases:
